@@ -566,3 +566,23 @@ Qed.
 
 Corollary C05_all_histories_dec sc : wf_histb sc = true -> mon_C05 sc (model_obs sc) = true.
 Proof. intros H. apply C05_all_histories. now apply wf_histb_ok. Qed.
+
+(* ---------------------------------------------------------------- a weaker judge passes wherever a stronger one does *)
+Lemma mfold_mono (J1 J2 : (tid -> mthread) -> list rawst -> tid -> apiop -> callobs -> bool) :
+  (forall ms prev t o co, J1 ms prev t o co = true -> J2 ms prev t o co = true) ->
+  forall hist obs ms prev, mfold J1 ms prev hist obs = true -> mfold J2 ms prev hist obs = true.
+Proof.
+  intros HJ. induction hist as [|[t o] hr IH]; intros obs ms prev H.
+  - destruct obs; [reflexivity|exact H].
+  - destruct obs as [|co orr]; [reflexivity|]. cbn [mfold] in *.
+    apply andb_true_iff in H. destruct H as [H H3]. apply andb_true_iff in H. destruct H as [H1 H2].
+    rewrite H1, (HJ _ _ _ _ _ H2). cbn [andb]. destruct (stop_code (co_ret co)); [reflexivity|]. now apply IH.
+Qed.
+
+(* C10's clause "a panic in user code issues no flagged release" is part of what C05 demands of every call *)
+Lemma mon_C05_implies_C10u sc obs : mon_C05 sc obs = true -> mon_C10u sc obs = true.
+Proof.
+  unfold mon_C05, mon_C10u, run_monitor. intros H. apply andb_true_iff in H. destruct H as [H _].
+  revert H. apply mfold_mono. intros ms prev t o co J. unfold judge_C05 in J. apply andb_true_iff in J. destruct J as [J _].
+  unfold judge_C10u. rewrite J. now destruct (rcode_eqb (co_ret co) RPanicked).
+Qed.
